@@ -180,3 +180,42 @@ def pmap(fn, items, chunksize=1):
         return [fn(x) for x in items]
     with pool:
         return pool.map(fn, items, chunksize=chunksize)
+
+
+class RunTimeout(Exception):
+    """a single traced run exceeded its wall-clock allowance"""
+
+
+class run_limit:
+    """`with run_limit(seconds):` raises RunTimeout inside the block when it takes longer (SIGALRM; main
+    thread of the process only — pool workers and the in-process fallback both qualify).  A run of the
+    sizes generated here takes well under a second; one that does not come back is a finding about the
+    run (an endless rejection-sampling loop, a run() that never returns), not a reason to hang the check."""
+
+    def __init__(self, seconds=None):
+        self.seconds = int(seconds if seconds is not None else os.environ.get("VERIF_RUN_TIMEOUT", "120"))
+
+    def __enter__(self):
+        import signal
+
+        self.old = None
+        try:
+            def _raise(signum, frame):
+                raise RunTimeout(f"no result after {self.seconds} s")
+
+            self.old = signal.signal(signal.SIGALRM, _raise)
+            signal.alarm(self.seconds)
+        except (ValueError, AttributeError):  # not in the main thread / no SIGALRM here
+            self.old = None
+        return self
+
+    def __exit__(self, *exc):
+        import signal
+
+        try:
+            signal.alarm(0)
+            if self.old is not None:
+                signal.signal(signal.SIGALRM, self.old)
+        except (ValueError, AttributeError):
+            pass
+        return False
